@@ -2,7 +2,10 @@
 
 package blocktimeindex
 
-import "encoding/binary"
+import (
+	"bytes"
+	"encoding/binary"
+)
 
 // C12.blocktime — blocktimeindex.FromBytes (unmarshalBinary) over arbitrary bytes and Index.Get
 // on whatever it returns: error or a value, no panic, allocation proportional to the input.
@@ -55,9 +58,5 @@ func VerifC12Blocktime() {
 }
 
 func verifC12MagicOK(data []byte) bool {
-	ok := true
-	for i := range magic {
-		ok = ok && data[i] == magic[i]
-	}
-	return ok
+	return bytes.Equal(data[:len(magic)], magic) // engine intrinsic: one symbolic term, no forks
 }
